@@ -25,6 +25,7 @@ func c10(c *eng.Ctx, r *eng.Report) {
 		"R10.5 fresh memory is zero: Memory.store is assigned only in Resize and only as append(m.store, make([]byte, n)...), NewMemory returns a fresh object and Run takes one per frame. " +
 		"R10.6 every memory-touching standard opcode reads and writes exactly the regions its definition names (offset/length operands as entry stack slots, compared with a reference table from the Yellow Paper and the EIPs). " +
 		"R10.7 the return-data buffer is a private copy (Run copies the operation's result, or every handler of a `returns` row hands back a copy). " +
+		"R10.11 RETURNDATACOPY fails when the range leaves the buffer, whatever its length: every successful return of opReturnDataCopy lies behind the comparison of offset+length with len(returnData) (EIP-211 has no zero-length exemption — a zero-length copy at offset 33 after a 32-byte return must abort the frame); " +
 		"R10.10 the memory an opcode activates is exactly what it touches: where a row's memorySize function accounts for a region of constant length (MLOAD, MSTORE: 32; MSTORE8: 1) some access of the handler at that offset ends exactly at that length — a byte store sized like a word store activates a word too many at an unaligned top offset, and MSIZE and every later expansion charge differ; " +
 		"R10.9 a zero-length memory operand touches nothing whatever its offset: in calcMemSize64WithUint every overflow result (second result true) is produced only after the length was found non-zero — KECCAK256(2^256-1, 0), RETURN(2^255, 0), CALLDATACOPY(2^64, 0, 0) are no-ops, not gas-overflow failures; " +
 		"R10.8 memory is resized to the maximum touched offset before execution: for each standard memory opcode every region its handler touches lies inside a region its memorySize function accounts for (the C11 coverage rule applied to the rows of the reference table; MCOPY needs both source and destination) and the growth is charged; " +
@@ -41,6 +42,7 @@ func c10(c *eng.Ctx, r *eng.Report) {
 	c11MemoryAs(c, r, rows, "R10.8", memRef, 20)
 	c10ZeroLengthFirst(c, r)
 	c10MemSizeTight(c, r, rows)
+	c10ReturnDataBounds(c, r)
 	c10Bitmap(c, r)
 	c10Memory(c, r)
 }
@@ -951,4 +953,40 @@ func c10MemSizeTight(c *eng.Ctx, r *eng.Report, rows []rowFx) {
 			r.Check(tight, rule, "memsize-tight:"+row.Name+"@"+row.Where, c.Pos(row.Pos), fmt.Sprintf("%s accounts for %d byte(s), the handler touches exactly that", eng.FuncName(row.MemSize), rg.LenConst), fmt.Sprintf("%s is sized by %s for %d bytes at its offset but its handler %s touches %d: the opcode activates memory it does not touch — for an offset in the last active word (MSTORE8 at offset 1 of empty memory) MSIZE reports one word too many and every later expansion is charged from the wrong base", row.Name, eng.FuncName(row.MemSize), rg.LenConst, eng.FuncName(row.Exec), widest))
 		}
 	}
+}
+
+// c10ReturnDataBounds: see R10.11.
+func c10ReturnDataBounds(c *eng.Ctx, r *eng.Report) {
+	const rule = "R10.11"
+	r.Min(rule, 1)
+	fn := c.Func("vm", "opReturnDataCopy")
+	if !r.Anchor(fn != nil, rule, "vm.opReturnDataCopy") {
+		return
+	}
+	n, bad := 0, ""
+	for _, re := range eng.Returns(fn) {
+		if !eng.IsNilConst(re.Incoming(1)) {
+			continue
+		}
+		n++
+		blk := re.Ret.Block()
+		if re.Pred != nil {
+			blk = re.Pred
+		}
+		checked := false
+		for _, cd := range eng.EdgeConds(blk) {
+			m, isM := cd.Cmp()
+			if !isM {
+				continue
+			}
+			dx, dy := eng.Desc(m.X), eng.Desc(m.Y)
+			if (strings.Contains(dx, "builtin:len(") && strings.Contains(dx, "returnData")) || (strings.Contains(dy, "builtin:len(") && strings.Contains(dy, "returnData")) {
+				checked = true
+			}
+		}
+		if !checked {
+			bad = c.Pos(re.Ret.Pos())
+		}
+	}
+	r.Check(bad == "" && n >= 1, rule, "returndatacopy:bounds-before-success", c.Pos(fn.Pos()), fmt.Sprintf("%d successful return(s), each behind the end <= len(returnData) test", n), "opReturnDataCopy can return success (at "+bad+") without having compared offset+length with the size of the return data: a copy whose range leaves the buffer — a zero-length one at offset 1 of an empty buffer included — silently succeeds and execution continues where EIP-211 aborts the frame")
 }
